@@ -119,3 +119,8 @@ if __name__ == "__main__":
             fires = [p for p, r in o["results"].items() if r["exit"] == 1]
             print(n, o["status"], "fires:", " ".join(fires))
         json.dump(out, open(os.environ.get("NDI_MATRIX_OUT", "/tmp/ndi-matrix.json"), "w"), indent=1)
+        # the per-slot cargo target directories of a matrix run are scratch: remove them
+        tdir = os.path.join(VERIF, ".target")
+        for d in os.listdir(tdir):
+            if "-st" + os.environ.get("NDI_MATRIX_SLOT", "") in d:
+                shutil.rmtree(os.path.join(tdir, d), ignore_errors=True)
